@@ -106,7 +106,7 @@ def str_eq(a: str, b: str):
     return SymBool(z3.And(conds))
 
 
-def instantiate(x, model, terms):
+def instantiate(x, model, terms, widths=None):
     """Replace placeholders by their value in `model` (recursively in containers)."""
     if isinstance(x, str):
         if not has_ph(x):
@@ -116,7 +116,8 @@ def instantiate(x, model, terms):
         while i < len(x):
             if x[i] == PH_START and i + 2 < len(x) and x[i + 2] == PH_END:
                 k = ord(x[i + 1]) - PH_BASE
-                out.append(str(model.eval(terms[k].t, model_completion=True).as_long()))
+                txt = str(model.eval(terms[k].t, model_completion=True).as_long())
+                out.append(txt.rjust(widths[k]) if widths else txt)
                 i += 3
             else:
                 out.append(x[i])
@@ -127,9 +128,9 @@ def instantiate(x, model, terms):
     if isinstance(x, SymBool):
         return z3.is_true(model.eval(x.t, model_completion=True))
     if isinstance(x, (list, tuple)):
-        return [instantiate(v, model, terms) for v in x]
+        return [instantiate(v, model, terms, widths) for v in x]
     if isinstance(x, dict):
-        return {instantiate(k, model, terms): instantiate(v, model, terms) for k, v in x.items()}
+        return {instantiate(k, model, terms, widths): instantiate(v, model, terms, widths) for k, v in x.items()}
     return x
 
 
